@@ -1,4 +1,4 @@
-import StreamzVerif.Model.Graph
+import StreamzVerif.Proofs.NodeSem
 /-
 Graph-level part of C01: the interpreter `emitAt / deliver / update / runEffs` of
 `Model/Graph.lean` (= `Stream._emit`) really is "each node runs its local `upd` on exactly
@@ -25,31 +25,6 @@ Structure of this file
 namespace StreamzVerif.Graph
 
 /-! ### 1. Vocabulary -/
-
-/-- node state after an `update` body: the last `.set`, else unchanged -/
-def finalLoc : List Eff → NState → NState
-  | [], s => s
-  | .set s' :: es, _ => finalLoc es s'
-  | _ :: es, s => finalLoc es s
-
-/-- what an `update` body emits, in order -/
-def outsOf : List Eff → List (Val × Meta)
-  | [] => []
-  | .emit v md :: es => (v, md) :: outsOf es
-  | .emitThenRelease v md :: es => (v, md) :: outsOf es
-  | _ :: es => outsOf es
-
-/-- one arrival: (who, x, metadata) -/
-abbrev Arr := NodeId × Val × Meta
-
-def stepLoc (k : Kind) (s : NState) (a : Arr) : NState × List (Val × Meta) :=
-  let u := upd k s a.1 a.2.1 a.2.2
-  (finalLoc u.effs s, outsOf u.effs)
-
-/-- A node run in isolation over a list of arrivals: final state and everything it emits. -/
-def localRun (k : Kind) : NState → List Arr → NState × List (Val × Meta)
-  | s, [] => (s, [])
-  | s, a :: as => let r := stepLoc k s a; let r' := localRun k r.1 as; (r'.1, r.2 ++ r'.2)
 
 def replay (G : NodeId → Kind) (i : NodeId) (s : NState) (arrivals : List Arr) : NState :=
   arrivals.foldl (fun s a => finalLoc (upd (G i) s a.1 a.2.1 a.2.2).effs s) s
